@@ -29,7 +29,7 @@ const (
 func runProbe(e *core.Env) {
 	rec := e.Rec
 	rec.Rule("probe: one case = one history of 100-150 probe rounds for a TCP group of 1-5 members (configuration order is a random arrangement of 1-5 of up to 7 named clients, the rest are non-members) under one of the three probing policies; " +
-		"each member follows a scripted profile (iid, phases switching near rounds 32/64/96, periodic with period 31-65, flip64 = round r+64 is the opposite of round r, twin of an earlier member, constant, dead, latency staircase); " +
+		"each member follows a scripted profile (iid, phases switching near rounds 32/64/96, periodic with period 31-65, flip64 = round r+64 is the opposite of round r, twin of an earlier member, constant, dead, latency staircase; overlays: total outage longer than the retention, latencies differing by 50-450 microseconds with the faster members later in configuration order); " +
 		"the served client is observed at quiescent virtual instants (right after the tick, at a random instant, right before the next tick) and compared with the reference model after the number of rounds every member has completed; " +
 		"class = policy/n/event where event is a behaviour that was really observed in that history: switch (served client changed), tie-first (>=2 members share the best score and the first is served), tie-later-first-not-zero, " +
 		"wrap-matters (the sample leaving a member's window differs from the one entering), held-during-round (mid-round observation while the finished round changes the choice), all-fail-round, fail kinds, default-config, queued (concurrency < members)")
@@ -121,6 +121,19 @@ func genProbeCase(r *core.RNG) *probeSpec {
 			}
 		}
 		p.profiles = append(p.profiles, fmt.Sprintf("total-outage@%d+%d", s0, ln))
+	}
+	if n >= 2 && p.policy != polAvailability && r.Chance(1, 3) {
+		// latencies that differ by less than a millisecond, the faster members later in configuration order: "lowest
+		// average / lowest worst latency" is decided on the latencies as measured, not on rounded ones
+		base := time.Duration(r.Pick(0, 0, 1, 10, 50)) * ms
+		delta := time.Duration(r.Pick(50, 100, 300, 450)) * time.Microsecond
+		from := r.Pick(0, 0, 5, 40)
+		for i := from; i < len(p.scripts[0]); i++ {
+			for m := range p.scripts {
+				p.scripts[m][i] = step{Kind: kOK, Lat: base + time.Duration(n-m)*delta}
+			}
+		}
+		p.profiles = append(p.profiles, fmt.Sprintf("sub-millisecond@%d(base %v, step %v)", from, base, delta))
 	}
 	return p
 }
